@@ -2,6 +2,7 @@ package main
 
 import (
 	"fmt"
+	"strings"
 	"go/types"
 	"sort"
 
@@ -51,5 +52,29 @@ func arraysCmd(pkgs []string) {
 	sort.Strings(out)
 	for _, l := range out {
 		fmt.Println(l)
+	}
+}
+
+// dev: database key terms per accessor in core/database_util.go
+func dbkeysCmd() {
+	c := newCtx("dev", "quick")
+	c.Load("./...")
+	for _, fn := range c.SrcFns {
+		if fn.Pkg == nil || relPkg(fn.Pkg.Pkg.Path()) != "core" || !strings.HasSuffix(c.FnPos(fn), "") {
+			continue
+		}
+		if !strings.Contains(c.FnPos(fn), "database_util.go") {
+			continue
+		}
+		for _, cs := range callSites(fn, `\.(Put|Get|Delete|Has)$`) {
+			if len(cs.Common().Args) == 0 {
+				continue
+			}
+			k := cs.Common().Args[0]
+			if cs.Common().IsInvoke() {
+				k = cs.Common().Args[0]
+			}
+			fmt.Printf("%-28s %-22s %s\n", fn.Name(), calleeName(cs.Common()), c.termOf(fn, k))
+		}
 	}
 }
